@@ -318,7 +318,21 @@ fn gen_history(rng: &mut Rng, id: usize, etc: Etc, sources: &[Source], long_budg
     let mut cur = initial;
     let mut seen = vec![initial];
     while longs < long_budget {
-        match rng.below(8) {
+        match rng.below(9) {
+            8 => {
+                // a rule string and its colon twin (":R" is a file name, "R" is a rule), both directions
+                let r = sources.iter().position(|s| s.value.as_deref() == Some("QQQ-9:11:23")).unwrap();
+                let c = sources.iter().position(|s| s.value.as_deref() == Some(":QQQ-9:11:23")).unwrap();
+                let (a, b) = if rng.chance(1, 2) { (r, c) } else { (c, r) };
+                steps.push(set(a));
+                steps.push(long(rng));
+                steps.push(conv(rng, false));
+                steps.push(set(b));
+                steps.push(long(rng));
+                steps.push(conv(rng, false));
+                longs += 2;
+                cur = b;
+            }
             7 => {
                 // polling: convert, change, then keep converting with every gap well under a second
                 // for more than a second - the conversions made >= 1 s after the change must be current
@@ -736,6 +750,8 @@ pub fn run(ctx: &Ctx) -> Outcome {
         Source { kind: "empty", value: Some(String::new()), valid: true },
         Source { kind: "unreadable", value: Some("/nonexistent/dir/zone".into()), valid: false },
         Source { kind: "unreadable", value: Some(":Nowhere/Land".into()), valid: false },
+        // the colon form of a rule string names a (non-existent) file: same text, different meaning
+        Source { kind: "unreadable", value: Some(":QQQ-9:11:23".into()), valid: false },
         Source { kind: "not_tzif", value: Some(not_tzif.display().to_string()), valid: false },
         Source { kind: "garbage", value: Some("this is not a timezone!!".into()), valid: false },
         Source { kind: "garbage", value: Some("EST5EDT,M13.1.0,M11.1.0".into()), valid: false },
